@@ -47,12 +47,24 @@ impl<'a> ChunkReader<'a> {
         for (i, x) in devs.iter().enumerate() {
             d[i] = *x;
         }
-        ChunkReader { data, pos: 0, devs: d, ndev: devs.len(), calls: 0, pulled: 0, log: if log { Some(Vec::new()) } else { None } }
+        ChunkReader {
+            data,
+            pos: 0,
+            devs: d,
+            ndev: devs.len(),
+            calls: 0,
+            pulled: 0,
+            log: if log { Some(Vec::new()) } else { None },
+        }
     }
 }
 
 impl AsyncRead for ChunkReader<'_> {
-    fn poll_read(self: Pin<&mut Self>, cx: &mut Context<'_>, buf: &mut ReadBuf<'_>) -> Poll<std::io::Result<()>> {
+    fn poll_read(
+        self: Pin<&mut Self>,
+        cx: &mut Context<'_>,
+        buf: &mut ReadBuf<'_>,
+    ) -> Poll<std::io::Result<()>> {
         let me = self.get_mut();
         let call = me.calls;
         me.calls += 1;
@@ -105,7 +117,12 @@ fn run(target: Target, data: &[u8], devs: &[(u32, Dev)], log: bool) -> Run {
         Target::Request => rig::run_sync(rig::parse_request(&mut reader), 1 << 20),
         Target::Response => rig::run_sync(rig::parse_response(&mut reader), 1 << 20),
     });
-    Run { result, pulled: reader.pulled, calls: reader.calls, log: reader.log.take().unwrap_or_default() }
+    Run {
+        result,
+        pulled: reader.pulled,
+        calls: reader.calls,
+        log: reader.log.take().unwrap_or_default(),
+    }
 }
 
 // ------------------------------------------------------------------ framing reference
@@ -119,7 +136,14 @@ fn unit_end(target: Target, stream: &[u8]) -> (usize, bool) {
     loop {
         if stream.len() < off + 4 {
             let e = stream.len();
-            return (if target == Target::Record { e } else { e.min(4096) }, false);
+            return (
+                if target == Target::Record {
+                    e
+                } else {
+                    e.min(4096)
+                },
+                false,
+            );
         }
         let ty = u16::from_be_bytes([stream[off], stream[off + 1]]) & 0x7fff;
         let len = u16::from_be_bytes([stream[off + 2], stream[off + 3]]) as usize;
@@ -182,9 +206,18 @@ impl<'a> std::ops::DerefMut for Acc<'a> {
 
 impl<'a> Acc<'a> {
     fn new(ctx: &'a Ctx) -> Self {
-        Acc { ctx, n: Counts::default(), reported: std::collections::HashMap::new() }
+        Acc {
+            ctx,
+            n: Counts::default(),
+            reported: std::collections::HashMap::new(),
+        }
     }
-    fn viol(&mut self, class: &'static str, what: impl FnOnce() -> String, trace: impl FnOnce() -> String) {
+    fn viol(
+        &mut self,
+        class: &'static str,
+        what: impl FnOnce() -> String,
+        trace: impl FnOnce() -> String,
+    ) {
         let n = self.reported.entry(class).or_insert(0);
         *n += 1;
         if *n <= 4 {
@@ -248,7 +281,10 @@ fn tidx(t: Target) -> usize {
 }
 
 fn trace_of(target: Target, data: &[u8], devs: &[(u32, Dev)]) -> String {
-    let d: Vec<String> = devs.iter().map(|(k, d)| format!("{}{}", if *d == Dev::Short { "s" } else { "p" }, k)).collect();
+    let d: Vec<String> = devs
+        .iter()
+        .map(|(k, d)| format!("{}{}", if *d == Dev::Short { "s" } else { "p" }, k))
+        .collect();
     format!("{:?};{};{}", target, d.join("+"), common::hex(data))
 }
 
@@ -269,31 +305,60 @@ fn show(p: &Option<Parsed>) -> String {
 
 /// Oracles that apply to every single run. `full` is the whole stream the data is a
 /// prefix of (for the framing reference). Returns the parse result (None on panic).
-fn check_run(acc: &mut Acc<'_>, target: Target, data: &[u8], devs: &[(u32, Dev)], r: &Run) -> Option<Option<Parsed>> {
+fn check_run(
+    acc: &mut Acc<'_>,
+    target: Target,
+    data: &[u8],
+    devs: &[(u32, Dev)],
+    r: &Run,
+) -> Option<Option<Parsed>> {
     acc.evaluations += 1;
     acc.max_calls = acc.max_calls.max(r.calls as u64);
     let res = match &r.result {
         Err(e) => {
-            acc.viol("C30:panic", || format!("{target:?} parser panicked: {e}"), || trace_of(target, data, devs));
+            acc.viol(
+                "C30:panic",
+                || format!("{target:?} parser panicked: {e}"),
+                || trace_of(target, data, devs),
+            );
             return None;
         }
         Ok(v) => v.clone(),
     };
     if res.is_none() {
-        acc.viol("C30:no-progress", || format!("{target:?} parser still pending after 2^20 polls"), || trace_of(target, data, devs));
+        acc.viol(
+            "C30:no-progress",
+            || format!("{target:?} parser still pending after 2^20 polls"),
+            || trace_of(target, data, devs),
+        );
     }
     let (end, complete) = unit_end(target, data);
     if target != Target::Record {
         acc.max_pulled_msg = acc.max_pulled_msg.max(r.pulled as u64);
         if r.pulled > 4096 {
-            acc.viol("C30:pulled-more-than-4096", || format!("{target:?} parser pulled {} bytes from the reader", r.pulled), || trace_of(target, data, devs));
+            acc.viol(
+                "C30:pulled-more-than-4096",
+                || {
+                    format!(
+                        "{target:?} parser pulled {} bytes from the reader",
+                        r.pulled
+                    )
+                },
+                || trace_of(target, data, devs),
+            );
         }
     }
     if r.pulled > end {
         acc.viol(
             "C30:overread",
-            || format!("{target:?} parser pulled {} bytes but its unit ends at offset {end}", r.pulled),
-            || trace_of(target, data, devs));
+            || {
+                format!(
+                    "{target:?} parser pulled {} bytes but its unit ends at offset {end}",
+                    r.pulled
+                )
+            },
+            || trace_of(target, data, devs),
+        );
     }
     if let Some(Ok((v, _))) = &res {
         if !complete {
@@ -314,7 +379,16 @@ fn check_run(acc: &mut Acc<'_>, target: Target, data: &[u8], devs: &[(u32, Dev)]
 fn roundtrip(acc: &mut Acc<'_>, target: Target, data: &[u8], value: &str, ser: &[u8]) {
     acc.roundtrips += 1;
     if ser.starts_with(b"!serialize") {
-        acc.viol("C30:accepted-not-serialisable", || format!("{target:?}: accepted value {value:.120} fails to serialise ({})", String::from_utf8_lossy(ser)), || trace_of(target, data, &[]));
+        acc.viol(
+            "C30:accepted-not-serialisable",
+            || {
+                format!(
+                    "{target:?}: accepted value {value:.120} fails to serialise ({})",
+                    String::from_utf8_lossy(ser)
+                )
+            },
+            || trace_of(target, data, &[]),
+        );
         return;
     }
     let r = run(target, ser, &[], false);
@@ -328,16 +402,38 @@ fn roundtrip(acc: &mut Acc<'_>, target: Target, data: &[u8], value: &str, ser: &
             };
             acc.viol(
                 "C30:roundtrip",
-                || format!("{target:?}: accepted {value:.120}; serialised to {}; that parses to {got}", common::hex(&ser[..ser.len().min(64)])),
-                || trace_of(target, data, &[]));
+                || {
+                    format!(
+                        "{target:?}: accepted {value:.120}; serialised to {}; that parses to {got}",
+                        common::hex(&ser[..ser.len().min(64)])
+                    )
+                },
+                || trace_of(target, data, &[]),
+            );
         }
     }
     if target != Target::Record && ser.len() > 4096 {
-        acc.viol("C30:roundtrip", || format!("{target:?}: re-serialisation is {} bytes (> 4096)", ser.len()), || trace_of(target, data, &[]));
+        acc.viol(
+            "C30:roundtrip",
+            || {
+                format!(
+                    "{target:?}: re-serialisation is {} bytes (> 4096)",
+                    ser.len()
+                )
+            },
+            || trace_of(target, data, &[]),
+        );
     }
 }
 
-fn deviations(acc: &mut Acc<'_>, target: Target, data: &[u8], base: &Run, base_res: &Option<Parsed>, bound: u8) {
+fn deviations(
+    acc: &mut Acc<'_>,
+    target: Target,
+    data: &[u8],
+    base: &Run,
+    base_res: &Option<Parsed>,
+    bound: u8,
+) {
     if bound == 0 {
         return;
     }
@@ -391,7 +487,9 @@ fn check_stream(acc: &mut Acc<'_>, stream: &[u8], plan: Plan, targets: &[Target]
     let mut accepted = [false; 3];
     for &t in targets {
         let base = run(t, &full, &[], plan.dev > 0);
-        let Some(base_res) = check_run(acc, t, &full, &[], &base) else { continue };
+        let Some(base_res) = check_run(acc, t, &full, &[], &base) else {
+            continue;
+        };
         match &base_res {
             Some(Ok((v, ser))) => {
                 acc.accepted[tidx(t)] += 1;
@@ -408,7 +506,9 @@ fn check_stream(acc: &mut Acc<'_>, stream: &[u8], plan: Plan, targets: &[Target]
                 let data = &stream[..cut];
                 let b = run(t, data, &[], plan.trunc_dev > 0);
                 acc.truncations += 1;
-                let Some(b_res) = check_run(acc, t, data, &[], &b) else { continue };
+                let Some(b_res) = check_run(acc, t, data, &[], &b) else {
+                    continue;
+                };
                 if let Some(Ok((v, ser))) = &b_res {
                     // a prefix that is itself a complete unit (e.g. the first record)
                     roundtrip(acc, t, data, v, ser);
@@ -456,7 +556,10 @@ fn body(ty: u16, size: usize, fill: u8) -> Vec<u8> {
 
 impl Sym {
     fn rec(&self) -> Rec {
-        Rec { ty: self.ty | if self.critical { 0x8000 } else { 0 }, body: body(self.ty, self.size, self.fill) }
+        Rec {
+            ty: self.ty | if self.critical { 0x8000 } else { 0 },
+            body: body(self.ty, self.size, self.fill),
+        }
     }
 }
 
@@ -471,7 +574,12 @@ fn alphabet_full() -> Vec<Sym> {
                     if size == 0 && fill == 1 {
                         continue;
                     }
-                    v.push(Sym { ty, critical, size, fill });
+                    v.push(Sym {
+                        ty,
+                        critical,
+                        size,
+                        fill,
+                    });
                 }
             }
         }
@@ -483,7 +591,12 @@ fn alphabet_reduced() -> Vec<Sym> {
     let mut v = Vec::new();
     for ty in 0..16u16 {
         for size in [0usize, 2, 4, 64] {
-            v.push(Sym { ty, critical: true, size, fill: 0 });
+            v.push(Sym {
+                ty,
+                critical: true,
+                size,
+                fill: 0,
+            });
         }
     }
     v
@@ -519,18 +632,68 @@ fn seeds() -> Vec<(&'static str, Vec<Rec>)> {
     let k32: Vec<u8> = (0..64).collect();
     let k64: Vec<u8> = (0..128).collect();
     vec![
-        ("req-ke", vec![Rec::new(0x8001, &[0x80, 1, 0, 0]), Rec::new(0x8004, &[0, 17, 0, 15]), Rec::new(13, b"a.example"), Rec::new(13, b"b"), eom()]),
-        ("req-fk256", vec![Rec::new(14, b"tok"), Rec::new(0x800c, &k32), Rec::new(0x8001, &[0, 0]), Rec::new(0x8004, &[0, 15]), Rec::new(8, &[]), eom()]),
-        ("req-fk512", vec![Rec::new(14, b"tok"), Rec::new(0x800c, &k64), Rec::new(0x8001, &[0x80, 1]), Rec::new(0x8004, &[0, 17]), eom()]),
-        ("req-support", vec![Rec::new(14, b"tok"), Rec::new(0x8009, &[]), Rec::new(0x800a, &[]), Rec::new(8, &[]), eom()]),
-        ("req-support-p", vec![Rec::new(14, b""), Rec::new(0x8009, &[0, 0]), eom()]),
+        (
+            "req-ke",
+            vec![
+                Rec::new(0x8001, &[0x80, 1, 0, 0]),
+                Rec::new(0x8004, &[0, 17, 0, 15]),
+                Rec::new(13, b"a.example"),
+                Rec::new(13, b"b"),
+                eom(),
+            ],
+        ),
+        (
+            "req-fk256",
+            vec![
+                Rec::new(14, b"tok"),
+                Rec::new(0x800c, &k32),
+                Rec::new(0x8001, &[0, 0]),
+                Rec::new(0x8004, &[0, 15]),
+                Rec::new(8, &[]),
+                eom(),
+            ],
+        ),
+        (
+            "req-fk512",
+            vec![
+                Rec::new(14, b"tok"),
+                Rec::new(0x800c, &k64),
+                Rec::new(0x8001, &[0x80, 1]),
+                Rec::new(0x8004, &[0, 17]),
+                eom(),
+            ],
+        ),
+        (
+            "req-support",
+            vec![
+                Rec::new(14, b"tok"),
+                Rec::new(0x8009, &[]),
+                Rec::new(0x800a, &[]),
+                Rec::new(8, &[]),
+                eom(),
+            ],
+        ),
+        (
+            "req-support-p",
+            vec![Rec::new(14, b""), Rec::new(0x8009, &[0, 0]), eom()],
+        ),
         ("resp-full", full_resp),
         ("resp-9cookies", nine),
         ("resp-error", vec![Rec::new(0x8002, &[0, 1]), eom()]),
         ("resp-warning", vec![Rec::new(0x8003, &[0, 9]), eom()]),
         ("resp-no-proto", vec![Rec::new(0x8001, &[]), eom()]),
-        ("resp-no-alg", vec![Rec::new(0x8001, &[0, 0]), Rec::new(0x8004, &[]), eom()]),
-        ("resp-supports", vec![Rec::new(0x800a, &[0, 15, 0, 32, 0, 17, 0, 64]), Rec::new(0x8009, &[0, 0, 0x80, 1]), eom()]),
+        (
+            "resp-no-alg",
+            vec![Rec::new(0x8001, &[0, 0]), Rec::new(0x8004, &[]), eom()],
+        ),
+        (
+            "resp-supports",
+            vec![
+                Rec::new(0x800a, &[0, 15, 0, 32, 0, 17, 0, 64]),
+                Rec::new(0x8009, &[0, 0, 0x80, 1]),
+                eom(),
+            ],
+        ),
     ]
 }
 
@@ -554,9 +717,18 @@ fn filler(kind: u8, n: usize) -> Option<Vec<Rec>> {
         }
         let unit = 4 + unit_body.len();
         // never leave a remainder of 1..=3 bytes
-        let take = if left >= unit && (left - unit == 0 || left - unit >= 4) { unit } else if left <= unit { left } else { left - 4 };
+        let take = if left >= unit && (left - unit == 0 || left - unit >= 4) {
+            unit
+        } else if left <= unit {
+            left
+        } else {
+            left - 4
+        };
         let b = take - 4;
-        out.push(Rec { ty, body: unit_body[..b.min(unit_body.len())].to_vec() });
+        out.push(Rec {
+            ty,
+            body: unit_body[..b.min(unit_body.len())].to_vec(),
+        });
         if b > unit_body.len() {
             return None;
         }
@@ -599,7 +771,13 @@ fn oversize_streams() -> Vec<Oversize> {
                         (3, Target::Response) => false, // server-deny is not allowed in a response
                         _ => true,
                     };
-                    v.push(Oversize { name: format!("total={total} filler={kind} core_first={core_first}"), stream: stream.clone(), target, total, acceptable: ignorable });
+                    v.push(Oversize {
+                        name: format!("total={total} filler={kind} core_first={core_first}"),
+                        stream: stream.clone(),
+                        target,
+                        total,
+                        acceptable: ignorable,
+                    });
                 }
             }
         }
@@ -609,8 +787,20 @@ fn oversize_streams() -> Vec<Oversize> {
     let mut big_eom = core.to_vec();
     big_eom.push(Rec::new(0x8000, &vec![0; 5000]));
     for target in [Target::Request, Target::Response] {
-        v.push(Oversize { name: "no-eom 70000".into(), stream: endless.clone(), target, total: 70000, acceptable: false });
-        v.push(Oversize { name: "eom body 5000".into(), stream: rig::enc(&big_eom), target, total: 5016, acceptable: true });
+        v.push(Oversize {
+            name: "no-eom 70000".into(),
+            stream: endless.clone(),
+            target,
+            total: 70000,
+            acceptable: false,
+        });
+        v.push(Oversize {
+            name: "eom body 5000".into(),
+            stream: rig::enc(&big_eom),
+            target,
+            total: 5016,
+            acceptable: true,
+        });
     }
     v
 }
@@ -621,7 +811,11 @@ fn parse_devs(s: &str) -> Vec<(u32, Dev)> {
     s.split('+')
         .filter(|x| !x.is_empty())
         .filter_map(|x| {
-            let d = if x.starts_with('s') { Dev::Short } else { Dev::Pending };
+            let d = if x.starts_with('s') {
+                Dev::Short
+            } else {
+                Dev::Pending
+            };
             x[1..].parse().ok().map(|k| (k, d))
         })
         .collect()
@@ -639,7 +833,9 @@ fn replay(ctx: &Ctx, trace: &str) -> String {
         _ => Target::Response,
     };
     let devs = parse_devs(parts[1]);
-    let Some(data) = common::unhex(parts[2]) else { return "bad hex".into() };
+    let Some(data) = common::unhex(parts[2]) else {
+        return "bad hex".into();
+    };
     let mut acc = Acc::new(ctx);
     let base = run(target, &data, &[], false);
     let base_res = check_run(&mut acc, target, &data, &[], &base);
@@ -647,7 +843,15 @@ fn replay(ctx: &Ctx, trace: &str) -> String {
     let res = check_run(&mut acc, target, &data, &devs[..devs.len().min(2)], &r);
     if let (Some(a), Some(b)) = (&base_res, &res) {
         if a != b {
-            ctx.violation("C30:chunking-dependent", format!("one read gives {}, scripted chunking gives {}", show(a), show(b)), trace);
+            ctx.violation(
+                "C30:chunking-dependent",
+                format!(
+                    "one read gives {}, scripted chunking gives {}",
+                    show(a),
+                    show(b)
+                ),
+                trace,
+            );
         }
         if let Some(Ok((v, ser))) = a {
             roundtrip(&mut acc, target, &data, v, ser);
@@ -695,55 +899,113 @@ fn check() {
 
     // (1) length <= 1
     {
-        let plan = Plan { dev: 2, truncate: true, trunc_dev: 2, distinct_only_accepted: false };
+        let plan = Plan {
+            dev: 2,
+            truncate: true,
+            trunc_dev: 2,
+            distinct_only_accepted: false,
+        };
         let n = 1 + full.len() as u64;
-        common::par_for_with(n, 4, || Acc::new(&ctx), |acc, i| {
-            let word: Vec<usize> = if i == 0 { vec![] } else { vec![i as usize - 1] };
-            check_stream(acc, &seq_stream(&full, &word), plan, &TARGETS);
-        });
+        common::par_for_with(
+            n,
+            4,
+            || Acc::new(&ctx),
+            |acc, i| {
+                let word: Vec<usize> = if i == 0 { vec![] } else { vec![i as usize - 1] };
+                check_stream(acc, &seq_stream(&full, &word), plan, &TARGETS);
+            },
+        );
         ctx.set("len1_sequences", n);
     }
     // (2) length 2
     {
         let plan = if quick {
-            Plan { dev: 1, truncate: true, trunc_dev: 0, distinct_only_accepted: false }
+            Plan {
+                dev: 1,
+                truncate: true,
+                trunc_dev: 0,
+                distinct_only_accepted: false,
+            }
         } else {
-            Plan { dev: 2, truncate: true, trunc_dev: 1, distinct_only_accepted: false }
+            Plan {
+                dev: 2,
+                truncate: true,
+                trunc_dev: 1,
+                distinct_only_accepted: false,
+            }
         };
         let k = full.len();
         let n = common::pow(k, 2);
-        common::par_for_with(n, 64, || Acc::new(&ctx), |acc, i| {
-            let word = common::word_of(i, k, 2);
-            let acc3 = check_stream(acc, &seq_stream(&full, &word), plan, &TARGETS);
-            if i % 20011 == 1234 {
-                ctx.sample(format!("seq {:?} {:?}: accepted by record/request/response = {:?}", full[word[0]], full[word[1]], acc3));
-            }
-        });
+        common::par_for_with(
+            n,
+            64,
+            || Acc::new(&ctx),
+            |acc, i| {
+                let word = common::word_of(i, k, 2);
+                let acc3 = check_stream(acc, &seq_stream(&full, &word), plan, &TARGETS);
+                if i % 20011 == 1234 {
+                    ctx.sample(format!(
+                        "seq {:?} {:?}: accepted by record/request/response = {:?}",
+                        full[word[0]], full[word[1]], acc3
+                    ));
+                }
+            },
+        );
         ctx.set("len2_sequences", n);
     }
     // (3) length 3
     {
         let alpha = if quick { &reduced } else { &full };
-        let plan = Plan { dev: 0, truncate: false, trunc_dev: 0, distinct_only_accepted: true };
+        let plan = Plan {
+            dev: 0,
+            truncate: false,
+            trunc_dev: 0,
+            distinct_only_accepted: true,
+        };
         let k = alpha.len();
         let n = common::pow(k, 3);
-        common::par_for_with(n, 512, || Acc::new(&ctx), |acc, i| {
-            let word = common::word_of(i, k, 3);
-            // the first record alone was covered by (1); only the message parsers see more than it
-            check_stream(acc, &seq_stream(alpha, &word), plan, &[Target::Request, Target::Response]);
-        });
+        common::par_for_with(
+            n,
+            512,
+            || Acc::new(&ctx),
+            |acc, i| {
+                let word = common::word_of(i, k, 3);
+                // the first record alone was covered by (1); only the message parsers see more than it
+                check_stream(
+                    acc,
+                    &seq_stream(alpha, &word),
+                    plan,
+                    &[Target::Request, Target::Response],
+                );
+            },
+        );
         ctx.set("len3_sequences", n);
         if !quick {
             if ctx.over_budget() {
                 ctx.cap_hit("length-3 sequences over the reduced alphabet with truncations and deviation bound 1 not started; whole-buffer pass over the full alphabet complete");
             } else {
-                let plan = Plan { dev: 1, truncate: true, trunc_dev: 0, distinct_only_accepted: true };
+                let plan = Plan {
+                    dev: 1,
+                    truncate: true,
+                    trunc_dev: 0,
+                    distinct_only_accepted: true,
+                };
                 let k = reduced.len();
                 let n = common::pow(k, 3);
-                common::par_for_with(n, 256, || Acc::new(&ctx), |acc, i| {
-                    let word = common::word_of(i, k, 3);
-                    check_stream(acc, &seq_stream(&reduced, &word), plan, &[Target::Request, Target::Response]);
-                });
+                common::par_for_with(
+                    n,
+                    256,
+                    || Acc::new(&ctx),
+                    |acc, i| {
+                        let word = common::word_of(i, k, 3);
+                        check_stream(
+                            acc,
+                            &seq_stream(&reduced, &word),
+                            plan,
+                            &[Target::Request, Target::Response],
+                        );
+                    },
+                );
                 ctx.set("len3_reduced_deviation1_sequences", n);
             }
         }
@@ -751,12 +1013,24 @@ fn check() {
     // (4) seeds
     {
         let seeds = seeds();
-        let plan = Plan { dev: 2, truncate: true, trunc_dev: if quick { 1 } else { 2 }, distinct_only_accepted: false };
-        common::par_for_with(seeds.len() as u64, 1, || Acc::new(&ctx), |acc, i| {
-            let (name, recs) = &seeds[i as usize];
-            let a = check_stream(acc, &rig::enc(recs), plan, &TARGETS);
-            ctx.sample(format!("seed {name}: accepted by record/request/response = {a:?}"));
-        });
+        let plan = Plan {
+            dev: 2,
+            truncate: true,
+            trunc_dev: if quick { 1 } else { 2 },
+            distinct_only_accepted: false,
+        };
+        common::par_for_with(
+            seeds.len() as u64,
+            1,
+            || Acc::new(&ctx),
+            |acc, i| {
+                let (name, recs) = &seeds[i as usize];
+                let a = check_stream(acc, &rig::enc(recs), plan, &TARGETS);
+                ctx.sample(format!(
+                    "seed {name}: accepted by record/request/response = {a:?}"
+                ));
+            },
+        );
         // insertions
         let mut jobs = Vec::new();
         for (si, (_, recs)) in seeds.iter().enumerate() {
@@ -766,35 +1040,81 @@ fn check() {
                 }
             }
         }
-        let plan = Plan { dev: 1, truncate: false, trunc_dev: 0, distinct_only_accepted: false };
-        common::par_for_with(jobs.len() as u64, 32, || Acc::new(&ctx), |acc, i| {
-            let (si, pos, sym) = jobs[i as usize];
-            let mut recs = seeds[si].1.clone();
-            recs.insert(pos, full[sym].rec());
-            check_stream(acc, &rig::enc(&recs), plan, &[Target::Request, Target::Response]);
-        });
+        let plan = Plan {
+            dev: 1,
+            truncate: false,
+            trunc_dev: 0,
+            distinct_only_accepted: false,
+        };
+        common::par_for_with(
+            jobs.len() as u64,
+            32,
+            || Acc::new(&ctx),
+            |acc, i| {
+                let (si, pos, sym) = jobs[i as usize];
+                let mut recs = seeds[si].1.clone();
+                recs.insert(pos, full[sym].rec());
+                check_stream(
+                    acc,
+                    &rig::enc(&recs),
+                    plan,
+                    &[Target::Request, Target::Response],
+                );
+            },
+        );
         ctx.set("seed_insertion_streams", jobs.len() as u64);
     }
     // (5) oversize
     {
         let streams = oversize_streams();
-        common::par_for_with(streams.len() as u64, 1, || Acc::new(&ctx), |acc, i| {
-            let o = &streams[i as usize];
-            let plan = Plan { dev: 1, truncate: !quick, trunc_dev: 0, distinct_only_accepted: false };
-            let a = check_stream(acc, &o.stream, plan, &[o.target]);
-            let accepted = a[tidx(o.target)];
-            let fits = o.total <= 4096;
-            if accepted && !fits {
-                ctx.violation("C30:oversize-accepted", format!("{:?} accepted a {}-byte message ({})", o.target, o.total, o.name), format!("{:?};;{}", o.target, common::hex(&o.stream)));
-            }
-            if o.acceptable && fits && !accepted {
-                ctx.violation("C30:limit-below-4096", format!("{:?} rejected a well-formed {}-byte message ({})", o.target, o.total, o.name), format!("{:?};;{}", o.target, common::hex(&o.stream)));
-            }
-            ctx.inc(if accepted { "oversize_accepted" } else { "oversize_rejected" });
-            if o.total == 4096 || o.total == 4097 {
-                ctx.sample(format!("oversize {:?} {}: accepted={accepted}", o.target, o.name));
-            }
-        });
+        common::par_for_with(
+            streams.len() as u64,
+            1,
+            || Acc::new(&ctx),
+            |acc, i| {
+                let o = &streams[i as usize];
+                let plan = Plan {
+                    dev: 1,
+                    truncate: !quick,
+                    trunc_dev: 0,
+                    distinct_only_accepted: false,
+                };
+                let a = check_stream(acc, &o.stream, plan, &[o.target]);
+                let accepted = a[tidx(o.target)];
+                let fits = o.total <= 4096;
+                if accepted && !fits {
+                    ctx.violation(
+                        "C30:oversize-accepted",
+                        format!(
+                            "{:?} accepted a {}-byte message ({})",
+                            o.target, o.total, o.name
+                        ),
+                        format!("{:?};;{}", o.target, common::hex(&o.stream)),
+                    );
+                }
+                if o.acceptable && fits && !accepted {
+                    ctx.violation(
+                        "C30:limit-below-4096",
+                        format!(
+                            "{:?} rejected a well-formed {}-byte message ({})",
+                            o.target, o.total, o.name
+                        ),
+                        format!("{:?};;{}", o.target, common::hex(&o.stream)),
+                    );
+                }
+                ctx.inc(if accepted {
+                    "oversize_accepted"
+                } else {
+                    "oversize_rejected"
+                });
+                if o.total == 4096 || o.total == 4097 {
+                    ctx.sample(format!(
+                        "oversize {:?} {}: accepted={accepted}",
+                        o.target, o.name
+                    ));
+                }
+            },
+        );
         ctx.set("oversize_streams", streams.len() as u64);
     }
     ctx.set("states", ctx.get("streams"));
